@@ -2,6 +2,8 @@
    Line:  19 n {len succ...}*n  nroots
           { root nil stI [n]idom  stD numNodes [n]{IDom(k) [..]In(k) [..]Out(k)}  stF [n][..]df  mutated }*
    st* : 0 = the call returned, 2 = it panicked.
+   mutated : 1 when an argument (graph, idom) changed during a call OR a result read differently after the
+   harness, as a caller may, appended a sentinel to every slice the results hand out (harness/c19.go).
    Every root is judged twice:
    (A) against the SPECIFICATION ORACLE of Spec/Dom.v (dominance by node deletion and
        reachability): IDom exactly, Dom's child lists as inversions of IDom, DomFrontier
